@@ -1793,3 +1793,52 @@ def _op_cliload(self, op):
 
 
 StoreRun.op_cliload = _op_cliload
+
+
+# ===========================================================================
+# One directed end-to-end creation with > 1e6 pixels (C02, thorough tier):
+# crosses index_pixels' real 1_000_000-row block boundary with the knob off.
+# ===========================================================================
+def _op_bigcreate(self, op):
+    import cooler
+
+    n1, n2 = op["nbins"]
+    n = n1 + n2
+    b = 10
+    names = ["big1", "big2"]
+    lengths = [n1 * b - 3, n2 * b]
+    edges = [[k * b for k in range(n1)] + [lengths[0]], [k * b for k in range(n2 + 1)]]
+    bm = bins_frame(names, edges)
+    i, j = np.triu_indices(n)
+    keep = ((i * 7 + j) % op.get("thin", 1)) == 0
+    i, j = i[keep], j[keep]
+    cnt = ((i * 31 + j) % 7 + 1).astype(np.int32)
+    px = pd.DataFrame({"bin1_id": i.astype(np.int64), "bin2_id": j.astype(np.int64), "count": cnt})
+    exp = Coll(names, lengths, bm, px, True, None, None)
+    cuts = [0] + [int(len(px) * f) for f in op["splits"]] + [len(px)]
+    fid, path = op["file"], op["path"]
+    uri = uri_of(path, self.fpath(fid))
+    binsdf = cooler_bins(names, bm)
+
+    def chunks():
+        for lo, hi in zip(cuts[:-1], cuts[1:]):
+            yield px.iloc[lo:hi]
+
+    saved = seams.RLE_BLOCK[0]
+    seams.RLE_BLOCK[0] = None
+    fs_old = self.fs.clone()
+    self._arm_open_fault(None)
+    self._arm_snapshots(None)
+    try:
+        exc, tracer = self._call(lambda: cooler.create_cooler(uri, binsdf, chunks(), ordered=True, mode="a",
+                                                               h5opts={"compression": "lzf"}), None)
+    finally:
+        seams.RLE_BLOCK[0] = saved
+    self.stat("big-create-pixels", len(px))
+    if len(px) > 1_000_000:
+        self.stat("real-rle-block-boundary-crossed")
+    self._finish_producer(op, "C01", exc, exp, None, False, fs_old, fid, path, "a", False, early_refusal=True)
+    return exc, tracer
+
+
+StoreRun.op_bigcreate = _op_bigcreate
